@@ -1251,11 +1251,12 @@ def check(ctx, res):
     # long chains and rings: the theorem is about every graph, the correspondence must not stop at 8 ports
     long_hs = [gen_long_history(ctx.rng, n) for n in LONG_LENGTHS[:-1] for _ in range(ctx.n(3, 20))]
     long_hs += [gen_long_history(ctx.rng, LONG_LENGTHS[-1]) for _ in range(ctx.n(1, 5))]
-    # the saturation of the Coq oracle is cubic in the length of a chain: the 200-port histories go through the model only
-    # (which Props/C04.v proves equal to the specification) and through the text-based oracle of this file
-    short = [h for h in long_hs if len(h['ports']) <= 64]
+    # the saturation of the Coq oracle re-expands the whole reached set every round (cubic in the length of a chain: 0.7 s per
+    # history at 24 ports, 22 s at 64): histories over more than 24 ports go through the model only (0.02 - 0.15 s; Props/C04.v
+    # proves it equal to the specification for every graph) and through the text-based oracle of this file
+    short = [h for h in long_hs if len(h['ports']) <= 24]
     results = run_histories(ctx, res, short, 'long', every=False, shard_size=8)
-    results += run_histories(ctx, res, [h for h in long_hs if len(h['ports']) > 64], 'xlong', shard_size=2, spec=False)
+    results += run_histories(ctx, res, [h for h in long_hs if len(h['ports']) > 24], 'xlong', shard_size=8, spec=False)
     for h, (obs, _) in zip(long_hs, results):
         k = 'long:%d-ports' % len(h['ports'])
         res['distribution'][k] = res['distribution'].get(k, 0) + 1
